@@ -352,6 +352,11 @@ def fuzz_verdict(delta_of, bases, variance, bounds):
         d = delta_of(b)
         if lo <= d <= hi:
             return ("ok", b, lo, hi)
+        # times are whole microseconds: when the admissible interval contains no integer at all, no
+        # implementation can be inside it, and the nearest integers on either side are accepted
+        # (demanding more would demand the impossible, not what the statement says)
+        if -(-lo // 1) > hi // 1 and lo - 1 < d < hi + 1:
+            return ("ok", b, lo, hi)
         if hi < d < hi + 1 and near is None:
             near = ("round_hi", b, lo, hi)
         elif lo - 1 < d < lo and near is None:
